@@ -17,6 +17,11 @@ SHORT = 'paging'
 ENV = '''
 use std::collections::VecDeque;
 pub assume_specification<T: Clone> [<[T]>::to_vec] (s: &[T]) -> (r: Vec<T>) ensures r@ == s@;
+// std: the newest / oldest element of a VecDeque, if any
+pub assume_specification<T, A: std::alloc::Allocator> [VecDeque::<T, A>::back] (v: &VecDeque<T, A>) -> (r: Option<&T>)
+    ensures match r { Some(x) => v@.len() > 0 && *x == v@.last(), None => v@.len() == 0 };
+pub assume_specification<T, A: std::alloc::Allocator> [VecDeque::<T, A>::front] (v: &VecDeque<T, A>) -> (r: Option<&T>)
+    ensures match r { Some(x) => v@.len() > 0 && *x == v@[0], None => v@.len() == 0 };
 #[derive(Debug, Clone, Copy, PartialEq, Eq, Structural)]
 pub struct StatusCode { pub bits: u32 }
 impl StatusCode {
@@ -32,6 +37,16 @@ impl ByteString {
 impl Clone for ByteString {
     #[verifier::external_body]
     fn clone(&self) -> (r: Self) ensures r == *self { unimplemented!() }
+}
+// #[derive(PartialEq)] on ByteString: same bytes (or both null)
+pub open spec fn bs(b: ByteString) -> Option<Seq<u8>> { match b.value { Some(v) => Some(v@), None => None } }
+impl vstd::std_specs::cmp::PartialEqSpecImpl for ByteString {
+    open spec fn obeys_eq_spec() -> bool { true }
+    open spec fn eq_spec(&self, other: &ByteString) -> bool { bs(*self) == bs(*other) }
+}
+impl PartialEq for ByteString {
+    #[verifier::external_body]
+    fn eq(&self, other: &ByteString) -> (r: bool) { unimplemented!() }
 }
 pub mod random { use vstd::prelude::*; use super::ByteString; verus! {
     // crypto::random::byte_string(n): n random bytes, never the null byte string
@@ -55,21 +70,6 @@ impl Arc<Mutex<Vec<ReferenceDescription>>> {
     #[verifier::external_body]
     pub fn lock(&self) -> (r: Vec<ReferenceDescription>) ensures r@ == self.v.v@ { unimplemented!() }
 }
-impl Session {
-    // Session::find_browse_continuation_point: `iter().position(|cp| cp.id == *id)` then VecDeque::remove — finds AND
-    // removes (iterator adapter, outside the dialect): the result is one of the stored points, the others stay in order
-    #[verifier::external_body]
-    pub fn find_browse_continuation_point(&mut self, id: &ByteString) -> (r: Option<BrowseContinuationPoint>)
-        ensures
-            final(self).max_browse_continuation_points == old(self).max_browse_continuation_points,
-            r is None ==> final(self).browse_continuation_points@ == old(self).browse_continuation_points@,
-            r is Some ==> exists|i: int| 0 <= i < old(self).browse_continuation_points@.len()
-                && #[trigger] old(self).browse_continuation_points@[i] == r->Some_0
-                && r->Some_0.id == *id
-                && final(self).browse_continuation_points@ == old(self).browse_continuation_points@.remove(i),
-    { unimplemented!() }
-}
-
 // ---- specification
 pub open spec fn cp_list(cp: BrowseContinuationPoint) -> Seq<ReferenceDescription> { cp.reference_descriptions.v.v@ }
 // a stored continuation point always points inside its list, at a reference that has not been sent
@@ -138,6 +138,21 @@ SPEC = {
                     && (forall|i: int| 0 <= i < q1.len() - 1 ==> #[trigger] q1[i] == q0[i + dropped])
                     && (q0.len() < old(self).max_browse_continuation_points ==> dropped == 0)
             }),'''),
+    'find_browse_continuation_point': ('r', '''        ensures final(self).max_browse_continuation_points == old(self).max_browse_continuation_points,
+            // finds the first stored point with that id AND removes it (a continuation point is used once); the others stay in order
+            match r {
+                Some(cp) => exists|i: int| 0 <= i < old(self).browse_continuation_points@.len()
+                    && #[trigger] old(self).browse_continuation_points@[i] == cp
+                    && bs(cp.id) == bs(*id)
+                    && (forall|j: int| 0 <= j < i ==> bs(old(self).browse_continuation_points@[j].id) != bs(*id))
+                    && final(self).browse_continuation_points@ == old(self).browse_continuation_points@.remove(i),
+                None => final(self).browse_continuation_points@ == old(self).browse_continuation_points@
+                    && forall|j: int| 0 <= j < old(self).browse_continuation_points@.len() ==> bs(old(self).browse_continuation_points@[j].id) != bs(*id),
+            },'''),
+    'remove_expired_browse_continuation_points': (None, '''        ensures final(self).max_browse_continuation_points == old(self).max_browse_continuation_points,
+            // exactly the points made before the last modification of the address space go, the others stay in order
+            final(self).browse_continuation_points@ == old(self).browse_continuation_points@.filter(
+                |cp: BrowseContinuationPoint| cp.address_space_last_modified >= address_space.last_modified),'''),
     'reference_description_to_browse_result': ('r', '''        requires starting_index <= reference_descriptions@.len(), session_ok(*old(session)),
         ensures
             is_page(r, reference_descriptions@, starting_index as int, max_references_per_node as int,
@@ -152,7 +167,7 @@ SPEC = {
             // otherwise the answer is the next page of the list the point recorded, and the point itself is used up
             r.status_code == StatusCode::Good ==> exists|i: int| 0 <= i < old(session).browse_continuation_points@.len() && ({
                 let cp = #[trigger] old(session).browse_continuation_points@[i];
-                &&& cp.id == *continuation_point
+                &&& bs(cp.id) == bs(*continuation_point)
                 &&& r.references is Some
                 &&& r.references->Some_0@ == cp_list(cp).subrange(cp.starting_index as int,
                         page_end(cp_list(cp).len() as int, cp.starting_index as int, cp.max_references_per_node as int))
@@ -206,6 +221,9 @@ def build(manifest):
     for n in ['reference_description_to_browse_result', 'browse_from_continuation_point']:
         f[n] = norm_vis(clean_fn(vw.impl_fn(r'^impl ViewService \{', n)))
     f['add_browse_continuation_point'] = norm_vis(clean_fn(se.impl_fn(r'^impl Session \{', 'add_browse_continuation_point')))
+    rewrites = []
+    f['find_browse_continuation_point'] = position_to_loop(norm_vis(clean_fn(se.impl_fn(r'^impl Session \{', 'find_browse_continuation_point'))), rewrites)
+    f['remove_expired_browse_continuation_points'] = retain_to_loop(norm_vis(clean_fn(se.impl_fn(r'^impl Session \{', 'remove_expired_browse_continuation_points'))), rewrites)
     f['is_valid_browse_continuation_point'] = norm_vis(clean_fn(cp.impl_fn(r'^impl BrowseContinuationPoint \{', 'is_valid_browse_continuation_point')))
     for k in f:
         t = f[k]
@@ -221,6 +239,36 @@ def build(manifest):
                 q0.len() < self.max_browse_continuation_points ==> self.browse_continuation_points@.len() == q0.len(),
             decreases self.browse_continuation_points@.len(),''')
     f['add_browse_continuation_point'] = g
+    h = f['find_browse_continuation_point']
+    if 'D17 position over self.browse_continuation_points' in rewrites:
+        h = splice_loop(h, 0, '''                invariant pos_continuation_point <= self.browse_continuation_points@.len(),
+                    self.browse_continuation_points@ == old(self).browse_continuation_points@,
+                    self.max_browse_continuation_points == old(self).max_browse_continuation_points,
+                    forall|j: int| 0 <= j < pos_continuation_point ==> bs(self.browse_continuation_points@[j].id) != bs(*id),
+                    found_continuation_point is Some ==> found_continuation_point->Some_0 == pos_continuation_point
+                        && pos_continuation_point < self.browse_continuation_points@.len()
+                        && bs(self.browse_continuation_points@[pos_continuation_point as int].id) == bs(*id),
+                decreases self.browse_continuation_points@.len() - pos_continuation_point + (if found_continuation_point is None { 1int } else { 0int }),''')
+    f['find_browse_continuation_point'] = h
+    h = f['remove_expired_browse_continuation_points']
+    if 'D18 retain over self.browse_continuation_points' in rewrites:
+        h = splice_at(h, r'^\s*while\b', '''        let ghost q0 = self.browse_continuation_points@;
+        let ghost mut done: int = 0;''', before=True)
+        h = splice_loop(h, 0, '''            invariant 0 <= done <= q0.len(), idx_continuation_point <= self.browse_continuation_points@.len(),
+                self.max_browse_continuation_points == old(self).max_browse_continuation_points,
+                idx_continuation_point == q0.subrange(0, done).filter(|cp: BrowseContinuationPoint| cp.address_space_last_modified >= address_space.last_modified).len(),
+                self.browse_continuation_points@ == q0.subrange(0, done).filter(|cp: BrowseContinuationPoint| cp.address_space_last_modified >= address_space.last_modified)
+                    + q0.subrange(done, q0.len() as int),
+            decreases q0.len() - done,''')
+        h = splice_at(h, r'^\s*if keep_continuation_point \{', '''            proof {
+                assert(q0.subrange(0, done + 1).drop_last() =~= q0.subrange(0, done));
+                reveal_with_fuel(Seq::filter, 2);
+                done = done + 1;
+            }''', before=True)
+        h = h.rstrip()
+        k = h.rindex('}')
+        h = h[:k] + '        proof { assert(q0.subrange(0, q0.len() as int) =~= q0); }\n    }\n'
+    f['remove_expired_browse_continuation_points'] = h
     types = '\n'.join([
         br.struct('BrowseResult'),
         cp.struct('BrowseContinuationPoint'),
@@ -234,6 +282,8 @@ def build(manifest):
     a.add(f['is_valid_browse_continuation_point'], 'is_valid_browse_continuation_point', 'fn')
     a.add('}\nimpl Session {')
     a.add(f['add_browse_continuation_point'], 'add_browse_continuation_point', 'fn')
+    a.add(f['find_browse_continuation_point'], 'find_browse_continuation_point', 'fn')
+    a.add(f['remove_expired_browse_continuation_points'], 'remove_expired_browse_continuation_points', 'fn')
     a.add('}\npub struct ViewService { pub x: u8 }\nimpl ViewService {')
     a.add(f['reference_description_to_browse_result'], 'reference_description_to_browse_result', 'fn')
     a.add(f['browse_from_continuation_point'], 'browse_from_continuation_point', 'fn')
@@ -242,12 +292,12 @@ def build(manifest):
     add_proof_fns(a, CANARY, 'canary')
     a.add('}\nfn main() {}\n')
     return dict(asm=a, pid=PID, short=SHORT, clauses={k: v[1] for k, v in SPEC.items()}, twins={}, witness={},
-                assumptions=['C30: Session::find_browse_continuation_point (iter().position + VecDeque::remove) returns and removes a '
-                             'stored point with the requested id, keeping the others in order (assumed contract: iterator adapter)',
+                assumptions=['C30: rewrites D17 / D18 — `iter().position(|x| P)` and `retain(|x| B)` over the VecDeque of continuation points are '
+                             'replaced by the search / in-place filter loops they stand for; VecDeque::back / front have their std meaning',
                              'C30: random::byte_string never returns the null byte string; ids of live continuation points do not '
                              'collide (6 random bytes)',
                              'C30: the Arc<Mutex<Vec<ReferenceDescription>>> of a continuation point holds the list it was created with '
                              '(no other writer: the Arc is never shared outside the point)',
                              'C30: the first page is cut by the same function from the list Browse computed; how that list is '
-                             'computed (AddressSpace::find_references, filters, masks) is not under contract, nor are '
-                             'remove_expired_browse_continuation_points / remove_browse_continuation_points (VecDeque::retain closures)'])
+                             'computed (AddressSpace::find_references, filters, masks) is not under contract, nor is '
+                             'remove_browse_continuation_points (release)'])
